@@ -42,9 +42,15 @@ class Disagree(Exception):
 def gen_text_a(rng, allow_error=True):
     """stream A: imports of pool modules, assignments, defs and classes without calls"""
     lines = []
-    for k in rng.sample(range(W.NMOD), rng.choice([0, 1, 1, 2])):
+    ks = rng.sample(range(W.NMOD), rng.choice([0, 1, 1, 2]))
+    for k in ks:
         lines.append("import zm%d" % k)
-    for j in range(rng.randint(0, 2)):
+    for k in ks:
+        if rng.random() < 0.5:
+            lines.append("u%d = zm%d.x0" % (k, k))      # data derived from what the import resolves to
+    if rng.random() < 0.4:
+        lines.append("x0 = %d" % rng.randint(0, 9))
+    for j in range(1, rng.randint(1, 3)):
         r = rng.random()
         if r < 0.4:
             lines.append("x%d = %d" % (j, rng.randint(0, 9)))
@@ -252,6 +258,16 @@ class Driver:
                     f.write(x[2].encode("utf-8"))
                 self.bump(real)
                 model_xs.append(("write", W.path_of(x[1]), self.texts.content(x[2])))
+            elif k == "xwrite_keep_mtime":
+                # cp -p / rsync -t / two writes within one timestamp tick: the modification time is the old one,
+                # only the size component of the indicator tells (the generator guarantees a different size)
+                st = os.stat(real)
+                data = x[2].encode("utf-8")
+                assert len(data) != st.st_size, "xwrite_keep_mtime needs a different size"
+                with open(real, "wb") as f:
+                    f.write(data)
+                os.utime(real, ns=(st.st_atime_ns, st.st_mtime_ns))
+                model_xs.append(("write", W.path_of(x[1]), self.texts.content(x[2])))
             elif k == "xcreate_file":
                 with open(real, "xb"):
                     pass
@@ -404,6 +420,16 @@ def _free_folder(rng, tree_strs, folders, exclude_under=None):
     return None
 
 
+def _imported_ids(drv, f):
+    """ids k of the pool modules zm<k> that the file names in any import statement"""
+    import re
+    try:
+        with open(os.path.join(drv.root, *f.split("/")), encoding="utf-8") as fh:
+            return sorted(set(int(m) for m in re.findall(r"(?:import|from)\s+zm(\d)\b", fh.read())))
+    except OSError:
+        return []
+
+
 def _own_id(p):
     parts = p.split("/")
     nm = parts[-2] if parts[-1] == W.INIT and len(parts) > 1 else parts[-1]
@@ -423,6 +449,13 @@ def gen_action(rng, drv, tree):
     tset = set(files) | set(folders)
     if drv.safe_redo > 0 and rng.random() < 0.4:
         return ["redo"]
+    txts0 = [f for f in files if f.endswith(".txt")]
+    if txts0 and rng.random() < 0.12:
+        # a non-Python file is renamed to the name of a module that is imported somewhere but does not exist yet
+        wanted = sorted(set("zm%d.py" % k for f in files if f.endswith(".py") for k in _imported_ids(drv, f)
+                            if "zm%d.py" % k not in tset and "zm%d" % k not in tset))
+        if wanted:
+            return ["move", rng.choice(txts0), rng.choice(wanted)]
     lost = _lost_watches(drv, tset)
     if lost and rng.random() < 0.25:
         # re-create a resource whose watch entry is still there: through rope or behind its back
@@ -444,7 +477,7 @@ def gen_action(rng, drv, tree):
             return ["create_file", p]
         return ["changeset", [["create_file", p], ["write", p, gen_text(p)]]]
     if r < 0.28:
-        p = rng.choice(pyfiles or files)
+        p = rng.choice(files) if rng.random() < 0.2 else rng.choice(pyfiles or files)
         return ["write", p, gen_text(p)]
     if r < 0.33:
         p = _free_file(rng, tset, folders)
@@ -460,7 +493,32 @@ def gen_action(rng, drv, tree):
     if r < 0.46:
         src = rng.choice(files)
         dst = _free_file(rng, tset, folders)
-        if dst is None or (dst.endswith(".txt") != src.endswith(".txt")):
+        txts = [f for f in files if f.endswith(".txt")]
+        if rng.random() < 0.3:
+            # a non-Python file becomes a module (shapes.py.disabled -> shapes.py) or a module stops being one
+            if txts and rng.random() < 0.6:
+                src = rng.choice(txts)
+                # preferably under a name that some module imports and that does not resolve yet
+                wanted = sorted(set("zm%d.py" % k for f in pyfiles for k in _imported_ids(drv, f)
+                                    if "zm%d.py" % k not in tset and "zm%d" % k not in tset))
+                if wanted and rng.random() < 0.7:
+                    dst = rng.choice(wanted)
+                else:
+                    for _ in range(8):
+                        dst = _join(rng.choice(folders), "zm%d.py" % rng.randrange(W.NMOD))
+                        if dst not in tset:
+                            break
+                    else:
+                        dst = None
+            elif pyfiles:
+                src = rng.choice(pyfiles)
+                for _ in range(8):
+                    dst = _join(rng.choice(folders), "zt%d.txt" % rng.randrange(W.NTXT))
+                    if dst not in tset:
+                        break
+                else:
+                    dst = None
+        if dst is None:
             return None
         if dst.endswith(W.INIT) and not tree[W.path_of(src)][1]:
             return None      # model restriction: an __init__.py is always syntactically valid
@@ -493,7 +551,7 @@ def gen_action(rng, drv, tree):
     if r < 0.71:
         return ["undo"] if drv.safe_undo > 0 else ["redo"]
     if r < 0.84:
-        return gen_external(rng, gen_text, tree)
+        return gen_external(rng, gen_text, tree, drv.root)
     # controlled queries (stream A only; harmless in B)
     k = rng.random()
     if k < 0.2:
@@ -519,10 +577,14 @@ def _syntax_ok(text):
         return False
 
 
-def gen_external(rng, gen_text, tree):
-    """1-3 modifications behind rope's back, valid when performed in order"""
+def gen_external(rng, gen_text, tree, root):
+    """1-3 modifications behind rope's back, valid when performed in order.  File rewrites come in the three
+    shapes that matter for the (mtime, size) indicator: new mtime + new size, old mtime + new size, new mtime +
+    old size.  (Structural changes of a folder are only visible through its mtime: rope's design.)"""
     t = dict(tree)
     xs = []
+    sizes = {W.str_of(k): os.path.getsize(os.path.join(root, *W.str_of(k).split("/")))
+             for k, n in tree.items() if n is not None}
     for _ in range(rng.choice([1, 1, 2, 3])):
         files, folders = _paths(t)
         tset = set(files) | set(folders)
@@ -530,7 +592,25 @@ def gen_external(rng, gen_text, tree):
         if r < 0.35 and files:
             p = rng.choice(files)
             text = gen_text(p)
-            xs.append(["xwrite", p, text])
+            cur = sizes.get(p)
+            shape = rng.random()
+            if shape < 0.35 and cur is not None:
+                # same modification time, different size
+                if len(text.encode("utf-8")) == cur:
+                    text += "# pad\n"
+                xs.append(["xwrite_keep_mtime", p, text])
+            elif shape < 0.55 and cur is not None and cur > 0:
+                # new modification time, same size: a comment of the right length replaces the tail
+                body = gen_text(p).encode("utf-8")[:max(0, cur - 2)].decode("utf-8", "ignore")
+                body = body[:body.rfind("\n") + 1]
+                pad = cur - len(body.encode("utf-8"))
+                text = body + ("#" * (pad - 1) + "\n" if pad >= 1 else "")
+                if len(text.encode("utf-8")) != cur or (p.endswith(W.INIT) and not _syntax_ok(text)):
+                    text = gen_text(p)
+                xs.append(["xwrite", p, text])
+            else:
+                xs.append(["xwrite", p, text])
+            sizes[p] = len(text.encode("utf-8"))
             t[W.path_of(p)] = ("?", _syntax_ok(text), ())
         elif r < 0.55:
             p = _free_file(rng, tset, folders)
@@ -538,8 +618,10 @@ def gen_external(rng, gen_text, tree):
                 continue
             xs.append(["xcreate_file", p])
             t[W.path_of(p)] = ("?", True, ())
+            sizes[p] = 0
             if rng.random() < 0.6:
                 text = gen_text(p)
+                sizes[p] = len(text.encode("utf-8"))
                 xs.append(["xwrite", p, text])
                 t[W.path_of(p)] = ("?", _syntax_ok(text), ())
         elif r < 0.65:
@@ -551,9 +633,12 @@ def gen_external(rng, gen_text, tree):
             if rng.random() < 0.5:
                 xs.append(["xcreate_file", p + "/" + W.INIT])
                 t[W.path_of(p + "/" + W.INIT)] = ("?", True, ())
+                sizes[p + "/" + W.INIT] = 0
         elif r < 0.80 and (files or len(folders) > 1):
             p = rng.choice(files + folders[1:])
             xs.append(["xremove", p])
+            for k in [k for k in sizes if k == p or k.startswith(p + "/")]:
+                del sizes[k]
             pp = W.path_of(p)
             for k in [k for k in t if k[:len(pp)] == pp]:
                 del t[k]
@@ -563,13 +648,13 @@ def gen_external(rng, gen_text, tree):
                 dst = _free_folder(rng, tset, folders, exclude_under=src)
             else:
                 dst = _free_file(rng, tset, folders)
-                if dst is not None and dst.endswith(".txt") != src.endswith(".txt"):
-                    dst = None
                 if dst is not None and dst.endswith(W.INIT) and not t[W.path_of(src)][1]:
                     dst = None
             if dst is None:
                 continue
             xs.append(["xmove", src, dst])
+            for k in [k for k in sizes if k == src or k.startswith(src + "/")]:
+                sizes[dst + k[len(src):]] = sizes.pop(k)
             sp, dp = W.path_of(src), W.path_of(dst)
             for k in [k for k in t if k[:len(sp)] == sp]:
                 t[dp + k[len(sp):]] = t.pop(k)
@@ -677,14 +762,13 @@ def diagnose(drv, stale, dangling):
     from rope.base import resourceobserver
     pj = drv.project
     mm = pj.pycore.module_cache.module_map
-    ind = resourceobserver.ChangeIndicator()
     # module cache / file list / watched set coherent with the disk?
     for res, pm in mm.items():
         if not res.exists():
             return "cached-module-of-missing-resource"
         if hasattr(pm, "source_code") and not res.is_folder() and pm.source_code != res.read():
             return "cached-module-source-out-of-date"
-        if pj.pycore.observer.resources.get(res) != ind.get_indicator(res):
+        if pj.pycore.observer.resources.get(res) != W.reference_indicator(res.real_path):
             return "cached-module-indicator-out-of-date"
     fl = pj.file_list.files
     if fl is not None:
@@ -788,7 +872,8 @@ def run(ctx):
         "histories of 8-25 steps drawn from one PRNG over a pool of 5 module names (folder zm<k>, file zm<k>.py), "
         "__init__.py and 2 text files, depth <= 3: write / create / move / remove of files, folders and packages through "
         "rope (primitives and change sets), Rename and MoveModule of modules, undo / redo, 1-3 changes behind rope's "
-        "back (os calls + os.utime bumps) followed by project.validate(), controlled queries (get_files, get_pymodule, "
+        "back (os calls; rewrites that bump the mtime, that keep the old mtime but change the size, that keep the size) "
+        "followed by project.validate(), moves between non-Python and Python file names, controlled queries (get_files, get_pymodule, "
         "resolution of an imported name, package children); automatic_soa on and off. Stream A (model correspondence + "
         "oracle): sources are imports, assignments, defs, classes, 8% with a syntax error; every primitive event / "
         "external batch / query is one Coq case (pre-state, operation, post-state). Stream B (oracle only): from-imports, "
@@ -802,8 +887,10 @@ def run(ctx):
         "source folders follows the OS listing order; the model uses the sorted order)",
         "every resource respects the naming discipline (extension <=> file), __init__.py files are syntactically valid, "
         "no module of the pool exists on sys.path",
-        "external modifications change the (mtime, size) indicator: the harness bumps the mtime of every touched file "
-        "and folder to a fresh value (DESIGN's indicator_sound)",
+        "external modifications change at least one component of the (mtime, size) indicator (DESIGN's indicator_sound): "
+        "file rewrites come with new mtime + any size, OLD mtime + different size, new mtime + same size; structural "
+        "changes bump the mtime of the folders involved (a folder's size does not tell: rope's design); the reference "
+        "indicator used to abstract the watched set is computed by the harness, not by rope",
     ]
     _check_pool_names()
     ctx.extra["model_variant"] = "fix_move = fix_forget = true (repo commits d932e8e, b19aaa7)"
@@ -828,6 +915,11 @@ def run(ctx):
             for s, status in zip(res["steps"], res["statuses"]):
                 ctx.count("act:" + s["act"][0] + ("" if s["act"][0] != "q" else ":" + s["act"][1]) +
                           ("" if status == "done" else ":" + status.split(":")[0]))
+                if s["act"][0] == "external":
+                    for x in s["act"][1]:
+                        ctx.count("xop:" + x[0])
+                if s["act"][0] == "move" and s["act"][1].endswith(".txt") != s["act"][2].endswith(".txt"):
+                    ctx.count("act:move between a non-Python and a Python file name")
             ctx.count("events", res["events"])
             hist_info[hidx] = (stream, soa, res)
             if res.get("order_artefact"):
